@@ -1,6 +1,8 @@
 package main
 
 import (
+	"strconv"
+	"regexp"
 	"fmt"
 	"go/token"
 	"go/types"
@@ -138,6 +140,7 @@ func init() {
 					return
 				}
 				n := 0
+				viaRoot := 0
 				seen := map[string]bool{}
 				inRoot := map[ssa.CallInstruction]bool{}
 				names := []string{"context", "nonce", "contributions", "issig"}
@@ -151,6 +154,35 @@ func init() {
 							return // another entry's own site
 						}
 						for _, c := range callsIn(g) {
+							// the challenge obtained from another tabled entry (e.g. ChallengeWithRandomizers over a
+							// one-element builder list): its role parameters take this entry's values
+							if sc := staticCallee(c); sc != nil && sc != cc {
+								if other, isRoot := createChallengeRoles[FuncKey(sc)]; isRoot && FuncKey(sc) != key && !seen[key] {
+									okAll := true
+									for i, re := range roles {
+										if re == "" || other[i] == "" {
+											continue
+										}
+										m := regexp.MustCompile(`^\^arg#(\d+)\$$`).FindStringSubmatch(other[i])
+										if m == nil {
+											okAll = false
+											continue
+										}
+										k, _ := strconv.Atoi(m[1])
+										args := c.Common().Args
+										if k >= len(args) {
+											okAll = false
+											continue
+										}
+										d := desc(args[k])
+										R.decide("C02.f", key+":"+names[i], "createChallenge argument '"+names[i]+"' originates from the caller's own "+names[i]+" (through "+FuncKey(sc)+")", matches(re)(d), "got "+d+" want "+re, P.Pos(c.Pos()))
+									}
+									if okAll {
+										seen[key] = true
+										viaRoot++
+									}
+								}
+							}
 							if staticCallee(c) != cc || inRoot[c] {
 								continue
 							}
@@ -183,7 +215,7 @@ func init() {
 						R.bad("C02.f", key+":site", "tabled call site of createChallenge exists", "no call to createChallenge found in "+key+" or its helpers (challenge computed differently?)", "")
 					}
 				}
-				R.decide("C02.f", "createChallenge:callsites", "at least 6 call sites of createChallenge", n >= 6, fmt.Sprintf("found %d", n), "")
+				R.decide("C02.f", "createChallenge:callsites", "at least 6 call sites of createChallenge (or uses of a tabled entry that has one)", n+viaRoot >= 6, fmt.Sprintf("found %d", n+viaRoot), "")
 			}},
 		Rule{ID: "C02.g", Explain: "no order-sensitive accumulation inside a range over a map in any function that feeds a challenge (Go randomises map order).",
 			Run: func(P *Program, R *Report) { noMapOrderRule(P, R, "C02.g") }},
@@ -318,8 +350,12 @@ func proofListVerifyRule(P *Program, R *Report) {
 			return g.Subject == "len(arg#5)" && g.BoundA.String() == "0" && (g.Rel == "<=" || g.Rel == "==")
 		})})
 
-	// the one expected challenge
-	var chall *ssa.Call
+	// the one expected challenge: a createChallenge call in Verify, or in the one unexported helper that collects
+	// the contributions and returns the challenge computed from them
+	var chall *ssa.Call      // the createChallenge call
+	var challV ssa.Value     // its value as seen in Verify
+	var hcall *ssa.Call      // the call of the helper in Verify (nil: computed in Verify itself)
+	challFn := fn
 	for _, c := range callsIn(fn) {
 		if isCallTo(c, "gabi.createChallenge") {
 			if chall != nil {
@@ -327,11 +363,55 @@ func proofListVerifyRule(P *Program, R *Report) {
 				return
 			}
 			chall, _ = c.(*ssa.Call)
+			challV = chall
+		}
+	}
+	if chall == nil {
+		for _, ci := range callsIn(fn) {
+			c, isCall := ci.(*ssa.Call)
+			h := staticCallee(ci)
+			if !isCall || h == nil || h.Blocks == nil || h.Pkg != fn.Pkg || h.Object() == nil || h.Object().Exported() {
+				continue
+			}
+			var inner *ssa.Call
+			nInner := 0
+			for _, c2 := range callsIn(h) {
+				if isCallTo(c2, "gabi.createChallenge") {
+					inner, _ = c2.(*ssa.Call)
+					nInner++
+				}
+			}
+			if nInner != 1 || inner == nil {
+				continue
+			}
+			// returned as result 0 on the successful returns
+			okRet := true
+			for _, rv := range nonErrorReturnValues(h, 0, errIndex(h)) {
+				if rv != ssa.Value(inner) {
+					okRet = false
+				}
+			}
+			if !okRet {
+				continue
+			}
+			for _, r := range referrersOf(c) {
+				if ex, isEx := r.(*ssa.Extract); isEx && ex.Index == 0 {
+					if chall != nil {
+						R.bad(rule, kListVerify+":one-challenge", "exactly one expected challenge is computed", "more than one challenge helper call", P.Pos(c.Pos()))
+						return
+					}
+					chall, challV, hcall, challFn = inner, ex, c, h
+				}
+			}
 		}
 	}
 	if chall == nil {
 		R.bad(rule, kListVerify+":one-challenge", "exactly one expected challenge is computed with createChallenge", "no createChallenge call", P.Pos(fn.Pos()))
 		return
+	}
+	challDef := chall.Block()
+	if hcall != nil {
+		challDef = hcall.Block()
 	}
 	// every proof verified against it
 	fa := &ForAll{P: P, Spec: ForAllSpec{
@@ -348,54 +428,82 @@ func proofListVerifyRule(P *Program, R *Report) {
 				if desc(c.Call.Value) != "arg#0[#i]" || desc(c.Call.Args[0]) != "arg#1[#i]" {
 					return false
 				}
-				if c.Call.Args[1] != ssa.Value(chall) {
+				if c.Call.Args[1] != challV {
 					return false
 				}
 				// computed before the loop
-				return !l.Body[chall.Block()]
+				return !l.Body[challDef]
 			}}
 		}}}
 	r := fa.OnAccept(fn, AcceptTrue(0))
 	R.decide(rule, kListVerify+":forall-verify", "accept => for every i, pl[i].VerifyWithChallenge(publicKeys[i], X) returned true for the single X computed before the loop", r.Holds, r.Path, P.Pos(fn.Pos()))
-
-	// contributions: in-order concatenation
-	contribArg := chall.Call.Args[2]
-	seq, call, ok := seqThroughCall(P, contribArg)
-	want := "[(call:invoke:gabi.Proof.ChallengeContribution(arg#0[#i],arg#1[#i])#0...)*]"
-	got := seqString(seq)
-	if call != nil {
-		got = substArgs(got, call)
-	}
-	if !ok {
-		R.und(rule, kListVerify+":contributions", "contributions = in-order concatenation of pl[i].ChallengeContribution(publicKeys[i])", "slice construction idiom not recognised: "+desc(contribArg), P.Pos(chall.Pos()))
-	} else {
-		R.decide(rule, kListVerify+":contributions", "contributions = in-order concatenation of pl[i].ChallengeContribution(publicKeys[i])", got == want, "got "+got+" want "+want, P.Pos(chall.Pos()))
-	}
-	// an error from any ChallengeContribution rejects: accept => collecting function returned nil error,
-	// and inside it every iteration's error is tested
-	var collector *ssa.Function = fn
-	if call != nil {
-		collector = staticCallee(call)
-		mp(P, R, rule, kListVerify+":contrib-error", "accept => collecting the contributions returned no error", fn, AcceptTrue(0), &MustPass{Match: func(a Atom) bool {
-			c, _ := callAndResult(a.V)
-			return c == call && a.Want == Nil
+	if hcall != nil {
+		mp(P, R, rule, kListVerify+":challenge-error", "accept => computing the expected challenge returned no error", fn, AcceptTrue(0), &MustPass{NoInterproc: true, Match: func(a Atom) bool {
+			c, idx := callAndResult(a.V)
+			return c == hcall && idx == 1 && a.Want == Nil
 		}})
 	}
-	if collector != nil {
-		acc := AcceptTrue(0)
-		if collector != fn {
-			acc = AcceptNilErr(1)
+
+	// contributions: in-order concatenation (evaluated where the challenge is computed, in Verify's terms)
+	run := func(f func()) {
+		if hcall != nil {
+			bindCall(hcall, challFn, f)
+		} else {
+			f()
 		}
-		fa2 := &ForAll{P: P, Spec: ForAllSpec{Coll: is("arg#0"), Body: func(f *ssa.Function, l *Loop) *MustPass {
-			return &MustPass{Match: func(a Atom) bool {
-				c, idx := callAndResult(a.V)
-				return c != nil && a.Want == Nil && idx == 1 && c.Call.IsInvoke() && c.Call.Method.Name() == "ChallengeContribution"
-			}}
-		}}}
-		r2 := fa2.inFn(collector, acc)
-		R.decide(rule, FuncKey(collector)+":each-error-tested", "every proof's ChallengeContribution error is tested and leads to rejection", r2.holds, r2.detail, P.Pos(collector.Pos()))
-		R.seen(FuncKey(collector))
 	}
+	run(func() {
+		okAcc, errAcc := AcceptTrue(0), AcceptNilErr(1)
+		contribArg := chall.Call.Args[2]
+		seq, call, ok := seqThroughCall(P, contribArg)
+		want := "[(call:invoke:gabi.Proof.ChallengeContribution(arg#0[#i],arg#1[#i])#0...)*]"
+		got := seqString(seq)
+		if call != nil {
+			got = substArgs(got, call)
+		}
+		if !ok {
+			R.und(rule, kListVerify+":contributions", "contributions = in-order concatenation of pl[i].ChallengeContribution(publicKeys[i])", "slice construction idiom not recognised: "+desc(contribArg), P.Pos(chall.Pos()))
+		} else {
+			R.decide(rule, kListVerify+":contributions", "contributions = in-order concatenation of pl[i].ChallengeContribution(publicKeys[i])", got == want, "got "+got+" want "+want, P.Pos(chall.Pos()))
+		}
+		// an error from any ChallengeContribution rejects: the function computing the challenge succeeds only if the
+		// collecting function returned nil error, and inside it every iteration's error is tested
+		collector := challFn
+		hostAcc := okAcc
+		if challFn != fn {
+			hostAcc = errAcc
+		}
+		if call != nil {
+			collector = staticCallee(call)
+			mp(P, R, rule, kListVerify+":contrib-error", "accept => collecting the contributions returned no error", challFn, hostAcc, &MustPass{Match: func(a Atom) bool {
+				c, _ := callAndResult(a.V)
+				return c == call && a.Want == Nil
+			}})
+		}
+		if collector != nil {
+			acc := okAcc
+			if collector != fn {
+				acc = errAcc
+			}
+			fa2 := &ForAll{P: P, Spec: ForAllSpec{Coll: func(d string) bool { return d == "arg#0" }, Body: func(f *ssa.Function, l *Loop) *MustPass {
+				return &MustPass{Match: func(a Atom) bool {
+					c, idx := callAndResult(a.V)
+					return c != nil && a.Want == Nil && idx == 1 && c.Call.IsInvoke() && c.Call.Method.Name() == "ChallengeContribution"
+				}}
+			}}}
+			var r2 forAllMemo
+			if call != nil {
+				bindCall(call, collector, func() { r2 = fa2.inFn(collector, acc) })
+				if !r2.holds {
+					r2 = fa2.inFn(collector, acc) // (the collector's own parameter names)
+				}
+			} else {
+				r2 = fa2.inFn(collector, acc)
+			}
+			R.decide(rule, FuncKey(collector)+":each-error-tested", "every proof's ChallengeContribution error is tested and leads to rejection", r2.holds, r2.detail, P.Pos(collector.Pos()))
+			R.seen(FuncKey(collector))
+		}
+	})
 	// argument roles of the expected challenge: C02.f
 }
 
